@@ -265,6 +265,7 @@ func (i *InMemCollector) checkAlloc(ctx context.Context) {
 
 	rtmetrics.Read(i.memMetricSample)
 	currentAlloc := i.memMetricSample[0].Value.Uint64()
+	currentAlloc = simHeapAlloc(i, currentAlloc)
 
 	i.Metrics.Gauge(NUMERATOR_MEMORY_HEAP_ALLOC, float64(currentAlloc))
 
